@@ -1549,14 +1549,14 @@ func c05ErrClass(err error) string {
 
 		return "KAuthn"
 	case errors.Is(err, heimdall.ErrCommunicationTimeout):
-		return "KOther"
+		return "KOtherError"
 	case errors.Is(err, heimdall.ErrCommunication):
 		return "KComm"
 	case errors.Is(err, heimdall.ErrInternal):
 		return "KInternal"
 	}
 
-	return "KOther"
+	return "KOtherError" // an error of another kind is still a rejection
 }
 
 // the code site that answered, from the error text (histogram only, never compared)
